@@ -317,8 +317,9 @@ static std::string classify_crash(const std::string &txt, std::string &detail) {
             break;
         }
     }
+    // the class names the place only: what a wild access hits (redzone, freed block, unmapped page) depends on the heap layout of the process
     detail = kind + (where.empty() ? "" : " in " + where);
-    return "C01:crash-" + kind + (where.empty() ? "" : "@" + where);
+    return "C01:crash" + (where.empty() ? "" : "@" + where);
 }
 static std::string read_file(const std::string &p) { std::ifstream f(p); std::stringstream s; s << f.rdbuf(); return s.str(); }
 
@@ -694,20 +695,29 @@ int main(int argc, char **argv) {
     std::vector<std::string> viol_lines, known_lines, viol_json;
     mkdir(replay_dir.c_str(), 0755);
     mkdir((replay_dir + "/" + prop).c_str(), 0755);
+    std::set<std::string> done_classes;
     for (auto &kv : by_class) {
-        const std::string &cls = kv.first;
+        const std::string &cls0 = kv.first;
         uint64_t idx = kv.second.first;
+        std::string cls = cls0;
         std::string vprop = cls.substr(0, cls.find(':'));
         bool counts = vprop == prop || prop == "C18";
         if (!counts) { printf("NOTE: run %llu hit %s (%s); it belongs to another property's check and is not counted here\n", (unsigned long long)idx, cls.c_str(), kv.second.second.c_str()); continue; }
         Plan p = plan_for(prop, vseed, idx, tier);
         ChildOut first = run_in_child(p, prop);
         if (first.cls != cls) {
-            // classes can differ between the in-worker run and the isolated run only if the harness is not deterministic
-            printf("HARNESS: run %llu reported %s in the worker but %s in isolation\n", (unsigned long long)idx, cls.c_str(), first.cls.c_str());
-            harness_fault++;
-            continue;
+            if (first.cls.empty()) {
+                // not reproduced in a fresh process: either the harness is not deterministic or the code under test read memory it does not own
+                printf("HARNESS: run %llu reported %s in the worker but nothing in isolation\n", (unsigned long long)idx, cls.c_str());
+                harness_fault++;
+                continue;
+            }
+            // memory-unsafe code behaves differently in a long-lived worker and in a fresh process (heap layout): the isolated run is the reference
+            printf("NOTE: run %llu reported %s in the worker and %s in isolation; using the isolated result\n", (unsigned long long)idx, cls.c_str(), first.cls.c_str());
+            cls = first.cls;
         }
+        if (done_classes.count(cls)) continue;
+        done_classes.insert(cls);
         std::string detail = first.detail;
         if (const Known *k = match_known(known, prop, cls, detail)) {
             n_known++;
